@@ -7,7 +7,7 @@ a = json.load(open(f'{d}/agent_meta.json')) if os.path.exists(f'{d}/agent_meta.j
 conf = open(f'{d}/confirmation.txt').read().strip() if os.path.exists(f'{d}/confirmation.txt') else ''
 old = json.load(open(f'{d}/meta.json')) if os.path.exists(f'{d}/meta.json') else {}
 meta = {
-  'property': pid,
+  'property': (a.get('property') or pid)[:3] if pid.startswith('F') else pid,
   'summary': a.get('summary', ''),
   'what_it_needs_to_manifest': a.get('what_it_needs_to_manifest', ''),
   'files_changed': a.get('files_changed', []),
